@@ -8,5 +8,6 @@ AddPeak == /\ pc = "primary" /\ Len(prim) < MaxPeaks
            /\ \E r \in Refs, rv \in BOOLEAN, s \in Scores : prim' = Append(prim, [ref |-> r, rev |-> rv, score |-> s])
            /\ UNCHANGED <<selected, cands, best, result, pc>>
 PrimaryDone == pc = "primary" /\ pc' = "select" /\ UNCHANGED <<prim, selected, cands, best, result>>
-Next == AddPeak \/ PrimaryDone \/ WorkerNext
+Terminated == pc \in {"done", "aborted"} /\ UNCHANGED wvars
+Next == AddPeak \/ PrimaryDone \/ WorkerNext \/ Terminated
 =============================================================================
